@@ -375,11 +375,13 @@ def agRegister (s : State) (name : String) (es : List Ev) (variant : String) : S
       let (s, a, _) := runAgInstrs "" s a is
       reply (idsSet { s with agents := s.agents ++ [a] } name a.serial) name "register" "200,meta=ok"
 
-/-- resolve the identifier the harness sends for `name`; `mode`: "" | "noid" | "badid" | "unknownid" -/
+/-- resolve the identifier the harness sends for `name`; `mode`: "" | "noid" | "badid" | "unknownid" |
+    "oldid" (the identifier issued to that name in an earlier generation: every reset empties both
+    identifier maps, so it is unknown) -/
 def resolveId (s : State) (name mode : String) : Except String Agent :=
   if mode == "noid" then .error "403,Extension.MissingExtensionIdentifier" else
   if mode == "badid" then .error "403,Extension.InvalidExtensionIdentifier" else
-  if mode == "unknownid" then .error "403,Extension.UnknownExtensionIdentifier" else
+  if mode == "unknownid" || mode == "oldid" then .error "403,Extension.UnknownExtensionIdentifier" else
   match s.ids.lookup name with
   | none => .error "403,Extension.MissingExtensionIdentifier"
   | some k =>
